@@ -153,8 +153,8 @@ Definition ensure_connected (c : cfg) : M unit :=
 (* a reader wrapped in `except MemcacheUnexpectedCloseError: self.close(); raise` *)
 Definition guarded_reader {A} (r : list choice -> list Z -> list Z -> rres A * rstate * nat) : M A :=
   mtry (run_reader r) MemcacheUnexpectedCloseError (fun e => client_close ;;; throw e).
-(* one request/reply exchange: `buf = b""` at the start, the buffer is dropped at the end *)
-Definition exchange {A} (m : M A) : M A := set_buf [] ;;; mfinally m discard.
+(* one request/reply exchange starts with `buf = b""` *)
+Definition exchange {A} (m : M A) : M A := reset_buf ;;; m.
 
 (* ------------------------------------------------------------------ _fetch_cmd *)
 Definition extract_value (c : cfg) (expect_cas : bool) (line : list Z) (remapped : list (list Z * dyn))
@@ -209,8 +209,7 @@ Definition fetch_cmd (c : cfg) (name : list Z) (keys : list dyn) (expect_cas : b
   exchange (mtry (
     ensure_connected c ;;;
     send cmd ;;;
-    fun w => fetch_loop (S (S (length (match w_sock w with Some sid => conn_get (w_conns w) sid | None => [] end))))
-                        c name expect_cas remapped [] w
+    fun w => fetch_loop (S (S (length (w_buf w ++ cur_avail w)))) c name expect_cas remapped [] w
   ) (h_fetch c) (fun e => client_close ;;; if c_ignore_exc c && exn_isa e Exception_ then ret [] else throw e)).
 
 (* ------------------------------------------------------------------ _store_cmd *)
